@@ -28,6 +28,15 @@ def cases(tier, seed, phase):
                     'backoff': qh.gen_backoff(rng, 3), 'sender': rng.random() < 0.8, 'factory': rng.random() < 0.85,
                     'headers_only': rng.random() < 0.25, 'pools': [1, 1] if (backend == 'disk' and j % 10 == 9) else None}
         yield mk
+    for j in range(300 if tier == 'quick' else 5000):
+        def mk(j=j):
+            rng = rng_for(seed, 'c13f', j)
+            nr = rng.choice([2, 2, 3, 4])
+            return {'backend': 'dict' if j % 3 else 'disk', 'rcpts': list(range(nr)),
+                    'outcomes': qh.gen_history(rng, nr, rng.randint(1, 3), rng.choice(['MQ', 'MQP', 'MMQ']), nreplies=rng.choice([1, 2])),
+                    'backoff': qh.gen_backoff(rng, 2), 'sender': True, 'factory': True, 'headers_only': False, 'pools': None,
+                    'store_fail': [rng.choice(['set_recipients_delivered', 'set_timestamp', 'increment_attempts', 'remove']), rng.choice([0, 0, 1])]}
+        yield mk
 
 
 def run_case(case, model):
